@@ -287,6 +287,16 @@ var profiles = map[string][]weighted{
 		{9, "SeekTime"}, {7, "CreateSnap"}, {9, "SeekSnap"}, {0.5, "DeleteSub"}, {0.4, "DeleteTopic"}, {3, "Job"}, {8, "Advance"},
 		{1, "DeleteSnap"}, {1, "GetSnap"},
 	},
+	// client history of the paired (with / without prune jobs) runs of C15: no pagination
+	// tokens, pulls take everything eligible, no seek that revives (README: a seek does not
+	// resurrect what was permanently deleted), expiry and dead-letter sweeps belong to the
+	// client history (they are visible by design)
+	"c15": {
+		{4, "CreateTopic"}, {8, "CreateSub"}, {20, "Publish"}, {18, "Pull"}, {10, "Ack"}, {4, "ModAck"}, {3, "Nack"},
+		{2, "SeekTime"}, {1.5, "CreateSnap"}, {3, "DeleteSub"}, {2, "DeleteTopic"}, {3, "Job"}, {12, "Advance"},
+		{1.5, "GetSub"}, {1, "GetTopic"}, {1.5, "ListSubs"}, {1.5, "ListTopics"}, {1, "ListTopicSubs"}, {1, "UpdateSub"},
+		{0.7, "GetSnap"}, {0.7, "ListSnaps"}, {0.5, "DeleteSnap"},
+	},
 	"prune": {
 		{5, "CreateTopic"}, {8, "CreateSub"}, {16, "Publish"}, {14, "Pull"}, {10, "Ack"}, {3, "ModAck"}, {2, "Nack"},
 		{2, "SeekTime"}, {2, "CreateSnap"}, {1, "SeekSnap"}, {3, "DeleteSub"}, {3, "DeleteTopic"}, {22, "Job"}, {12, "Advance"},
@@ -365,6 +375,10 @@ func (g *Gen) Next(d *Dump, vnow int64) Action {
 	case "ListTopics", "ListSubs", "ListSnaps":
 		op := &Op{Kind: k, Project: "projects/" + g.project(), Size: int32([]int{0, 1, 1, 2, 3, 100, -1, 1000}[g.r.Intn(8)])}
 		key := k + op.Project
+		if g.profile == "c15" {
+			op.Size = 100
+			return Action{Op: op}
+		}
 		if t := g.lastTok[key]; t != "" && g.chance(0.7) {
 			op.Tok = t
 		} else if g.chance(0.05) {
@@ -373,6 +387,10 @@ func (g *Gen) Next(d *Dump, vnow int64) Action {
 		return Action{Op: op}
 	case "ListTopicSubs":
 		op := &Op{Kind: k, Name: g.liveTopic(d), Size: int32([]int{0, 1, 2, 100}[g.r.Intn(4)])}
+		if g.profile == "c15" {
+			op.Size = 100
+			return Action{Op: op}
+		}
 		if t := g.lastTok[k+op.Name]; t != "" && g.chance(0.7) {
 			op.Tok = t
 		}
@@ -441,9 +459,17 @@ func (g *Gen) Next(d *Dump, vnow int64) Action {
 		}
 		return Action{Op: op}
 	case "Pull":
+		if g.profile == "c15" {
+			return Action{Op: &Op{Kind: k, Name: g.liveSub(d), Max: 1000}}
+		}
 		return Action{Op: &Op{Kind: k, Name: g.liveSub(d), Max: int32([]int{1, 1, 2, 3, 10, 100}[g.r.Intn(6)])}}
 	case "SeekTime":
 		op := &Op{Kind: k, Name: g.liveSub(d)}
+		if g.profile == "c15" {
+			// purge only: a target clearly after everything published so far
+			op.Target = vnow + int64(g.r.Intn(3600))*1e9 + 5e9
+			return Action{Op: op}
+		}
 		// exact publish instants, instants in between, past and future
 		var ts []int64
 		for _, m := range d.Msgs {
@@ -486,6 +512,11 @@ func (g *Gen) Next(d *Dump, vnow int64) Action {
 		return Action{Op: &Op{Kind: k, Name: g.liveSub(d), Delay: []time.Duration{0, 5 * time.Second, 40 * time.Second}[g.r.Intn(3)]}}
 	case "Job":
 		op := &Op{Kind: k, Job: g.pick(jobKinds)}
+		if g.profile == "c15" {
+			op.Job = g.pick([]string{"ExpireSubs", "DeadLetterSweep"})
+			op.MaxN = 100
+			return Action{Op: op}
+		}
 		op.MinAge = []time.Duration{0, 0, time.Second, 30 * time.Second, time.Hour}[g.r.Intn(5)]
 		op.MaxN = []int{1, 2, 3, 100, 100}[g.r.Intn(5)]
 		return Action{Op: op}
